@@ -166,6 +166,8 @@ def build_part(pid, part, race=False):
 def run_part(pid, part, tier, binp, bdir, replay=None, seed=1):
     shards = part.get("shards_" + tier, part.get("shards", 1))
     deadline = part.get("deadline_" + tier, 150 if tier == "quick" else 1500)
+    if replay:
+        shards = 1  # one process re-executes the recorded case and prints what it did
     outs, procs = [], []
     for i in range(shards):
         out = os.path.join(bdir, "out.%d.jsonl" % i)
@@ -203,6 +205,15 @@ def run_part(pid, part, tier, binp, bdir, replay=None, seed=1):
                     records.append(json.loads(line))
         if rc != 0:
             failed.append((i, rc, os.path.join(bdir, "log.%d.txt" % i)))
+        if replay:
+            show = False
+            for line in open(os.path.join(bdir, "log.%d.txt" % i), errors="replace"):
+                if line.startswith("REPLAY"):
+                    show = True
+                if line.startswith(("--- ", "PASS", "FAIL", "ok ")) and show:
+                    show = False
+                if show:
+                    sys.stdout.write(line)
     return records, failed
 
 def race_pass(pid, part, tier, seconds):
